@@ -15,6 +15,7 @@ import z3
 from . import run as vrun
 from .engine import ConcreteRaise, State, Flow
 from .values import *  # noqa
+from .values import _Real
 
 
 class Case:
@@ -80,7 +81,10 @@ def to_sym(eng, st, v, sort):
     if isinstance(v, bool):
         return z3.BoolVal(v)
     if isinstance(v, int):
-        return z3.IntVal(v)
+        return z3.RealVal(v) if isinstance(sort, _Real) else z3.IntVal(v)
+    import fractions
+    if isinstance(v, fractions.Fraction):
+        return z3.RealVal(str(v))           # exact rationals (binary fractions are exact as floats on the CPython side too)
     raise Unsupported("cannot build a constant of sort %r from %r" % (sort, v))
 
 
